@@ -23,7 +23,13 @@ fn gen_asset(rng: &mut Rng) -> String {
 
 fn gen_kind(class: KindClass, rng: &mut Rng) -> KindSpec {
     // 2020-01-01 .. 2030-12-31
-    let day = rng.range(18262, 22279);
+    let mut day = rng.range(18262, 22279);
+    if rng.chance(1, 6) {
+        // around New Year (Dec 29 .. Jan 3), where calendar year and ISO week-based year differ
+        let year = rng.range(2021, 2030);
+        let jan1 = chrono::NaiveDate::from_ymd_opt(year as i32, 1, 1).unwrap().signed_duration_since(chrono::NaiveDate::from_ymd_opt(1970, 1, 1).unwrap()).num_days();
+        day = jan1 + rng.range(-3, 2);
+    }
     let tod = if rng.chance(2, 3) { 8 * 3_600_000 } else { rng.range(0, 86_399_999) };
     let expiry_ms = day * 86_400_000 + tod;
     match class {
@@ -48,7 +54,7 @@ fn gen_name_exchange(def: &PairDef, base: &str, quote: &str, plain: bool, rng: &
     if def.venue == Venue::Bitfinex && rng.chance(7, 10) {
         name.insert(0, 't');
     }
-    if def.venue.is_binance() {
+    if def.venue.is_binance() || matches!(def.venue, Venue::KrakenTrade | Venue::KrakenSpread) {
         // `name_exchange` is the venue's own spelling of the instrument; Binance spells (and echoes)
         // symbols upper-case. Non-canonical spellings are only observed, not judged (see main.rs).
         name = name.to_uppercase();
